@@ -22,7 +22,7 @@ Strip(g) == [x \in DOMAIN g \ {"slen", "crc"} |-> g[x]]
 BodyOf(v) == [x \in DOMAIN v \ {"tid", "ssi", "priv", "ver", "cni", "sn", "lsn", "slen", "crc"} |-> v[x]]
 
 OnT(s, e) ==
-  LET want == Unit(e.ptr, e.enc, e.trail)
+  LET want == Unit(e.ptr, e.encall, e.trail)    \* encall: every section of the unit, undecoded tables included; enc/secs: the decoded ones
       n == Len(e.secs)
   IN IF e.b # want THEN Rep(s, V("twin-differs-from-reference-encoding", s, e, [firstdiff |-> FirstDiff(e.b, want)]))
      ELSE LET headersOK == /\ e.gerr = "nil" /\ e.gptr = e.ptr /\ Len(e.got) = n
@@ -34,7 +34,8 @@ OnT(s, e) ==
               s1 == RepIf(~headersOK, s, V("parsed-section-differs-from-value", s, e,
                            [gerr |-> e.gerr, ngot |-> Len(e.got), n |-> n,
                             which |-> IF e.gerr # "nil" \/ Len(e.got) # n THEN 0 ELSE CHOOSE i \in 1..n : Strip(e.got[i]) # e.secs[i] \/ i = n]))
-              s2 == RepIf(~lensOK, s1, V("section-length-or-crc-field", s, e, [x |-> 0]))
+              s1b == RepIf(e.gerr = "nil" /\ e.gopq # e.nopq, s1, V("undecoded-section-not-skipped-by-its-length", s, e, [gopq |-> e.gopq, nopq |-> e.nopq]))
+              s2 == RepIf(~lensOK, s1b, V("section-length-or-crc-field", s, e, [x |-> 0]))
           IN RepIf(~dataOK, s2, V("demuxer-data-differs-from-value", s, e, [ndata |-> Len(e.data), n |-> n, derrs |-> e.derrs]))
 
 OnW(s, e) ==
